@@ -19,12 +19,11 @@ from lib import vlib, deccheck
 def run(ctx):
     quick = ctx.tier == "quick"
     ctx.build_harness()
-    g = ctx.tlc("GEN_Pixels", "GEN_Pixels_q" if quick else "GEN_Pixels_t", timeout=3400)
+    gen = os.path.join(ctx.tmp, "pixels.out")
+    g = ctx.tlc("GEN_Pixels", "GEN_Pixels_q" if quick else "GEN_Pixels_t", timeout=3400, out_file=gen)
     if g["error"] or not g["finished"]:
         raise vlib.Broken("GEN_Pixels failed (spec-level):\n" + vlib.tail(g["out"]))
     ctx.mc.append({k: g[k] for k in ("module", "cfg", "generated", "distinct", "wall_s")})
-    gen = os.path.join(ctx.tmp, "pixels.out")
-    open(gen, "w").write(g["out"])
     mis = os.path.join(ctx.tmp, "pixels.mis")
     p, _ = ctx.run_harness(["replay-pixels", "-in", gen, "-out", mis], timeout=3400)
     s = deccheck.summary_of(p)
@@ -35,7 +34,7 @@ def run(ctx):
         m = json.loads(line)
         ctx.violation("%s:%s:%d:%s" % (m["kind"], m["image"], m["size"], m["key"].split(":", 1)[1][:80]),
                       "renderings that must coincide differ: %s (%d differing bytes)" % (m["kind"], m["ndiff"]), m)
-    for line in g["out"].splitlines():
+    for line in open(gen):
         if '\\"diag\\":\\"pixels\\"' in line:
             sample = json.loads(json.loads(line.strip()))
             for c in sample["prog"]:
